@@ -18,7 +18,7 @@ def k4(ctx):
     rc, so, se = stages.sh(['cargo', 'build', '--offline'], cwd=src, env=dict(stages.ENV, CARGO_TARGET_DIR=tgt), timeout=1800)
     if rc != 0:
         return {'ok': False, 'why': 'K4 binary does not build against /repo', 'log': se[-3000:]}
-    names = NAMES if ctx.tier == 'thorough' else NAMES[:6]
+    names = NAMES[:9] if ctx.tier == 'thorough' else NAMES[:6]     # cubic in the number of names (Coq prints the whole table)
     p = subprocess.run([os.path.join(tgt, 'debug', 'sm-k4')], input='\n'.join(names) + '\n', capture_output=True, text=True, timeout=600)
     real = p.stdout.splitlines()
     body = 'Eval vm_compute in ("L", 0, 0, k4_lines [%s]).' % '; '.join('"%s"' % n for n in names)
